@@ -1,5 +1,6 @@
 import Driver.Tiny
 import Driver.Policy
+import Driver.Cache
 /-! `smdriver <component>`: replays a line-protocol trace from stdin through the model. -/
 open Driver
 
@@ -25,6 +26,17 @@ partial def loopPolicy (h : IO.FS.Stream) (st : PolSt) (tl : Tally) (prev : Opti
     let (st, tl, prev) := stepPolicy st tl act ans prev
     loopPolicy h st tl prev
 
+partial def loopCache (h : IO.FS.Stream) (st : CacheSt) (tl : Tally) : IO Tally := do
+  let line ← h.getLine
+  if line.isEmpty then return tl
+  let line := line.trimAscii.toString
+  if line.isEmpty || line.startsWith "#" then loopCache h st tl
+  else
+    let tl := { tl with lines := tl.lines + 1 }
+    let (act, ans) := splitBar line
+    let (st, tl) := stepCache st tl act ans
+    loopCache h st tl
+
 def main (args : List String) : IO UInt32 := do
   let stdin ← IO.getStdin
   match args with
@@ -34,6 +46,10 @@ def main (args : List String) : IO UInt32 := do
     return (if tl.diverge + tl.monitorFail + tl.guardFail + tl.bad == 0 then 0 else 1)
   | ["policy"] =>
     let tl ← loopPolicy stdin {} {} none
+    tl.report
+    return (if tl.diverge + tl.monitorFail + tl.guardFail + tl.bad == 0 then 0 else 1)
+  | ["cache"] =>
+    let tl ← loopCache stdin {} {}
     tl.report
     return (if tl.diverge + tl.monitorFail + tl.guardFail + tl.bad == 0 then 0 else 1)
   | _ =>
